@@ -530,7 +530,8 @@ HandleF(cs, fsys, req, aw, views, nfaults) ==
 (* handles the connection owns, by role *)
 Owned(cs) == (IF cs.dir.open THEN {"dir"} ELSE {}) \cup (IF cs.ro.open THEN {"ro"} ELSE {}) \cup (IF cs.wo.open THEN {"wo"} ELSE {})
 (* raw filesystem handles behind them: a generated image holds none itself  *)
-(* but lazily opens up to one per member file                               *)
+(* but keeps the member file it read last open (one at most: a directory    *)
+(* may have more files than the process can hold descriptors)               *)
 RawHeldMin(cs) == Cardinality({ r \in Owned(cs) : ~((r = "dir" /\ cs.dir.viso) \/ (r = "ro" /\ cs.ro.viso)) })
-RawHeldMax(cs, fsys) == RawHeldMin(cs) + (IF cs.ro.open /\ cs.ro.viso THEN Cardinality({ n \in Beneath(fsys, cs.ro.path) : n.kind # "dir" }) ELSE 0)
+RawHeldMax(cs, fsys) == RawHeldMin(cs) + (IF cs.ro.open /\ cs.ro.viso /\ \E n \in Beneath(fsys, cs.ro.path) : n.kind # "dir" THEN 1 ELSE 0)
 =============================================================================
